@@ -538,6 +538,69 @@ static void do_mixoutf(int o, int demix, int input_row, int input_rows, int outp
    printf("O OK "); pr_bits(outx, output_rows * frame_size); printf("\n");
    free(m); free(inx); free(outx);
 }
+static void do_mixin24(int o, int demix, int input_rows, int output_row, int output_rows, int frame_size, const opus_int32 *in)
+{
+   MappingMatrix *m = make_matrix(o, demix);
+   opus_int32 *inx = (opus_int32 *)malloc(sizeof(opus_int32) * (input_rows * frame_size + 1));
+   float *out = (float *)calloc(output_rows * frame_size + 1, sizeof(float)), res[8];
+   int i;
+   memcpy(inx, in, sizeof(opus_int32) * input_rows * frame_size);
+   printf("I layout mixin24 %d %s %d %d %d %d ", o, demix ? "demix" : "mix", input_rows, output_row, output_rows, frame_size);
+   if (!(input_rows * frame_size)) printf("-");
+   for (i = 0; i < input_rows * frame_size; i++) printf("%s%d", i ? "," : "", in[i]);
+   printf("\n"); fflush(stdout);
+   mapping_matrix_multiply_channel_in_int24(m, inx, input_rows, out, output_row, output_rows, frame_size);
+   for (i = 0; i < frame_size; i++) res[i] = out[output_rows * i];
+   printf("O OK "); pr_bits(res, frame_size); printf("\n");
+   free(m); free(inx); free(out);
+}
+static void do_mixout24(int o, int demix, int input_row, int input_rows, int output_rows, int frame_size, const float *in, const opus_int32 *out0)
+{
+   MappingMatrix *m = make_matrix(o, demix);
+   int nin = frame_size ? input_rows * (frame_size - 1) + 1 : 0, i;
+   float *inx = (float *)malloc(sizeof(float) * (nin + 1));
+   opus_int32 *outx = (opus_int32 *)malloc(sizeof(opus_int32) * (output_rows * frame_size + 1));
+   memcpy(inx, in, sizeof(float) * nin);
+   memcpy(outx, out0, sizeof(opus_int32) * output_rows * frame_size);
+   printf("I layout mixout24 %d %s %d %d %d %d ", o, demix ? "demix" : "mix", input_row, input_rows, output_rows, frame_size);
+   pr_bits(in, nin); printf(" ");
+   if (!(output_rows * frame_size)) printf("-");
+   for (i = 0; i < output_rows * frame_size; i++) printf("%s%d", i ? "," : "", out0[i]);
+   printf("\n"); fflush(stdout);
+   mapping_matrix_multiply_channel_out_int24(m, inx, input_row, input_rows, outx, output_rows, frame_size);
+   printf("O OK ");
+   if (!(output_rows * frame_size)) printf("-");
+   for (i = 0; i < output_rows * frame_size; i++) printf("%s%d", i ? "," : "", outx[i]);
+   printf("\n");
+   free(m); free(inx); free(outx);
+}
+/* 24-bit paths: in_int24 in the exact binary32 domain; out_int24 with arbitrary finite floats (incl. beyond the int range of
+   float2int) and accumulators up to the int32 limits (the sum is converted back to opus_int32 without saturation) */
+static void run_matrix_int24(vrng *r, long cases)
+{
+   long c;
+   for (c = 0; c < cases; c++) {
+      int o = vrange(r, 2, 6), demix = vbelow(r, 2), n = o * o + 2, ch = vchance(r, 50) ? n : n - 2;
+      int frame_size = vrange(r, 1, 3), i, k, j = vbelow(r, 16);
+      opus_int32 in[38 * 3], out[38 * 3];
+      float fin[4];
+      memset(in, 0, sizeof in);
+      if (vchance(r, 50)) for (i = 0; i < frame_size; i++) in[i * ch + vbelow(r, ch)] = vrange(r, -255, 255) * (1 << j);
+      else for (i = 0; i < frame_size * ch; i++) in[i] = vrange(r, -7, 7) * (1 << j);
+      do_mixin24(o, demix, ch, vbelow(r, ch), vchance(r, 50) ? 1 : 2, frame_size, in);
+      for (i = 0; i < frame_size; i++) {
+         k = vbelow(r, 10);
+         if (k < 5) fin[i] = (float)vrange(r, -9000000, 9000000) / 8388608.f;
+         else if (k < 7) fin[i] = ((float)vrange(r, -70000, 70000) + 0.5f) / 8388608.f;      /* ties */
+         else if (k < 8) fin[i] = (float)vrange(r, -300, 300);                                 /* beyond the int range above 255 */
+         else { unsigned u = (unsigned)vnext(r); float f; if (((u >> 23) & 255) == 255) u &= ~(1u << 30); memcpy(&f, &u, 4); fin[i] = f; }
+      }
+      for (k = 0; k < frame_size * ch; k++)
+         out[k] = vchance(r, 60) ? 0 : (vchance(r, 70) ? vrange(r, -9000000, 9000000) : (opus_int32)(vchance(r, 50) ? 2147483647 - vbelow(r, 1 << 24) : -2147483647 - 1 + (opus_int32)vbelow(r, 1 << 24)));
+      do_mixout24(o, demix, vbelow(r, ch), 1, ch, frame_size, fin, out);
+   }
+}
+
 /* exact-domain float cases: every product, partial sum and scaled result is a binary32 value, so the result does not
    depend on rounding, evaluation precision or contraction */
 static void run_matrix_float(vrng *r, long cases)
@@ -597,6 +660,7 @@ static void run_matrix(uint64_t seed, long cases)
       do_mixout(o, demix, vbelow(&r, ch), vchance(&r, 50) ? 1 : 2, ch, frame_size, fin, out);
    }
    run_matrix_float(&r, cases / 2 + 20);
+   run_matrix_int24(&r, cases / 2 + 20);
    /* saturation boundary of out_short: accumulator chosen so that acc + ((cell*sample+16384)>>15) lands on
       32766..32769 and -32767..-32770 for a random cell of the matrix column */
    for (c = 0; c < cases / 4 + 40; c++) {
